@@ -228,13 +228,18 @@ def run_pha(case, rng):
     from tlslite.utils.cryptomath import HKDF_expand_label, secureHMAC
     base = dict(case, ver=4)
     cs = mk_settings(base, False)
-    ss = mk_settings(base, True)
+    ss = mk_settings(base, False)       # `restrict` applies to the post-handshake request only
     chain, key = lab.creds(case["cred"])
     spy = P.Spy(key)
     schain, skey = lab.creds("rsa")
     L = lab.Lab()
     L.start_client(lambda c: c.handshakeClientCert(certChain=chain, privateKey=spy.key, settings=cs, async_=True))
     L.start_server(lambda c: c.handshakeServerAsync(certChain=schain, privateKey=skey, settings=ss))
+    if case.get("force_client_sigalg"):
+        orig = L.client.conn._sigHashesToList
+        forced = [tuple(case["force_client_sigalg"])]
+        L.client.conn._sigHashesToList = lambda settings, privateKey=None, certList=None, version=(3, 3): \
+            (forced if privateKey is not None else orig(settings, privateKey, certList, version))
     cap = Capture()
     state = {"round": 0, "cert": None, "cv": None, "first_sig": None}
 
@@ -317,10 +322,12 @@ def run_pha(case, rng):
         r2 = L.read("client", max=0, min=0)
         r3 = L.read("server", max=0, min=0)
         after = sconn.session.clientCertChain
-        if r3[0] == "error":
+        if r1[0] != "ok" or r2[0] == "error":
+            out = "prover-failed"
+        elif r3[0] == "error":
             e = lab.exc_class(r3[1])
             out = "alert:" + e.split(":")[1] if e.startswith("local_alert:") else "raise:" + e.split(":")[-1]
-        elif r1[0] != "ok" or r2[0] == "error":
+        elif False:
             out = "prover-failed"
         else:
             out = "ok"
